@@ -76,7 +76,7 @@ func NewOrchestrator(parentLogger logger.Logger, schema base.LogSchema, keyField
 		localMap := o.workerMap.MakeLocalMap()
 		onCreating := func([]string) {}
 		for _, pipelineID := range initialPipelineIDs {
-			keys := strings.Split(pipelineID, ",")
+			keys := splitPipelineID(pipelineID)
 			if len(keys) != len(keyFields) {
 				// FIXME: deal with new keys, shorter old keys should be okay
 				ologger.Warnf("ignore malformed existing pipeline ID: %s", pipelineID)
@@ -105,7 +105,7 @@ func (o *byKeySetOrchestrator) Shutdown() {
 // newPipeline creates channel and pipeline workers for a new key-set, must be protected by global mutex
 func (o *byKeySetOrchestrator) newPipeline(keys []string, onStopped func()) chan<- []*base.LogRecord {
 	outputTag := o.tagBuilder.Build(keys)
-	workerID := strings.Join(keys, ",")
+	workerID := makePipelineID(keys)
 	inputChannel := make(chan []*base.LogRecord, defs.IntermediateBufferedChannelSize)
 	pipelineLogger := o.logger.WithField(defs.LabelName, workerID)
 	pipelineLogger.Infof("new pipeline tag=%s", outputTag)
@@ -160,4 +160,32 @@ func (oc *byKeySetOrchestratorSink) flushAllLocalBuffers(forceAll bool) {
 		}
 		cache.Flush(now, oc.logger, mergedKey)
 	})
+}
+
+// makePipelineID joins the key values to the ID of a pipeline, which is also the ID of its queue directory.
+//
+// Commas and percent signs inside values are escaped so that different key sets never share an ID and the ID can be split
+// back at recovery. A lone "%" stands for a single empty key (an empty ID would select the buffer root directory).
+// IDs of key sets without "," and "%" are unchanged.
+func makePipelineID(keys []string) string {
+	escaped := make([]string, len(keys))
+	for i, key := range keys {
+		escaped[i] = strings.ReplaceAll(strings.ReplaceAll(key, "%", "%25"), ",", "%2C")
+	}
+	if id := strings.Join(escaped, ","); id != "" {
+		return id
+	}
+	return "%"
+}
+
+// splitPipelineID is the reverse of makePipelineID
+func splitPipelineID(id string) []string {
+	if id == "%" {
+		return []string{""}
+	}
+	keys := strings.Split(id, ",")
+	for i, key := range keys {
+		keys[i] = strings.ReplaceAll(strings.ReplaceAll(key, "%2C", ","), "%25", "%")
+	}
+	return keys
 }
